@@ -128,14 +128,14 @@ Lemma errors_never_ok {A} (o : option A) errs : errs <> [] -> into_result o errs
 Proof. destruct errs; [contradiction|reflexivity]. Qed.
 
 (* C04: check() and parse() report the same verdict and the same error list, for every quirk vector *)
-Lemma run_top_check_is_emit Q n g :
+Lemma run_top_check_is_emit Q n g : nested Q = None ->
   run_top Q K toks spn n Check g =
     match run_top Q K toks spn n Emit g with
     | TRes (Some _) errs => TRes (Some None) errs
     | x => x
     end.
 Proof.
-  unfold run_top. rewrite (mode_independent Q K toks spn n).
+  intros HQ. unfold run_top. rewrite (mode_independent Q K toks spn HQ n).
   destruct (Machine.go Q K toks spn n Emit (ThenIgnore g End) env0 init_st) as [[] s']; reflexivity.
 Qed.
 
